@@ -203,6 +203,18 @@ def run_case(case, ctx):
     ctx.check(bool(np.isfinite(dn)) and -1 - SLACK <= dn <= 1 + SLACK,
               "range:directionality_normalized",
               lambda: "spike_directionality=%r" % (dn,))
+    # the matrix forms of the normalised / un-normalised directionality and of the order
+    # obey the same range (both list orders: an empty train may sit at either position)
+    for lst, tag in (([st1, st2], "ab"), ([st2, st1], "ba")):
+        for nrm in (True, False):
+            dm = np.asarray(ctx.call("directionality_matrix", pyspike.spike_directionality_matrix,
+                                     lst, normalize=nrm, **kwo), dtype=float)
+            bound = 1 + SLACK if nrm else max(len(case["trains"][0]), len(case["trains"][1])) + SLACK
+            ctx.check(dm.shape == (2, 2) and bool(np.all(np.isfinite(dm)))
+                      and bool(np.all(np.abs(dm) <= bound)),
+                      "range:directionality_matrix",
+                      lambda: "spike_directionality_matrix(%s, normalize=%r)=%r"
+                      % (tag, nrm, dm.tolist()))
     if case["identity"]:
         ctx.check(abs(float(res["ISI"][1])) <= SLACK, "identity:ISI",
                   lambda: "isi_distance(a,a)=%r" % (res["ISI"][1],))
